@@ -45,13 +45,23 @@ REQUIRE = {
     "text_only_change_cases": 150,
     "rows_before_render_checks": 2500,
     "random_cases": 200,
+    "pack_fixed_checks": 500,
+    "pack_fixed_multi_line": 200,
+    "pack_fixed_widest_line_is_not_longest": 30,
+    "long_line_cases": 1000,
+    "long_line_width_gt_256_cases": 500,
+    "long_line_cases:wide/bytes": 150,
+    "long_line_cases:wide/str": 150,
+    "long_line_cases:utf8/bytes": 60,
+    "long_line_cases:utf8/str": 60,
+    "long_line_cases:narrow/bytes": 30,
     "control_char_cases": 3000,
     "control_char_all_ascii_str_cases": 1500,
     "exh_strings:PCtl": 20,
-    "encoding_interleave_cases": 3000,
-    "encoding_switches_same_width": 2000,
+    "encoding_interleave_cases": 2000,
+    "encoding_switches_same_width": 1200,
     "encoding_switches_same_width_trimmed_ellipsis": 150,
-    "exh_strings:P0": 100,
+    "exh_strings:P0": 60,
     "dec_glyph_rows": 20,
     "enc:utf8/str": 2000,
     "enc:utf8/bytes": 2000,
@@ -71,7 +81,10 @@ RULE = (
     "exh_phase_complete:<phase> = number of shards that finished it). Rest of the budget: random texts to length 60 over "
     "ASCII/Latin-1/CJK/combining/ZWJ/VS16/emoji/line-drawing, widths to 40, encodings utf-8, euc-jp, gbk, big5, iso8859-1, "
     "ascii, koi8-r, plus same-config-other-width and text-only-change follow-ups (translation cache), pack(())/render(()) "
-    "and shift_line/trim_line window views. ASCII control characters (TAB, NUL, DEL, other C0 except newline and SO/SI; zero "
+    "and shift_line/trim_line window views. Long lines: texts of 150..1500 characters (all double-width, double-width after 1/2/3 "
+    "ASCII bytes, wide words, mixed, combining runs, ASCII words, unbroken ASCII, several long lines) x widths "
+    "{255,256,257,300,511,512,513,1000} x 4 wraps, rotating alignment, as str and bytes under utf-8, euc-jp, gbk, big5, "
+    "iso8859-1, cp1252. ASCII control characters (TAB, NUL, DEL, other C0 except newline and SO/SI; zero "
     "columns in str and utf-8 bytes, one column in 8-bit byte texts) appear in the random pools (incl. an all-ASCII style) and "
     "in a small exhaustive phase PCtl: every string of length <=4 (quick) / <=5 (thorough) over {a,space,TAB,newline(,DEL)} "
     "containing a control character x widths x wraps x aligns (utf-8 str; utf-8 and iso8859-1 bytes rotating). Encoding histories: fixed and random cases are laid out at the same width under "
@@ -83,8 +96,8 @@ ASSUMES = [
     "texts contain only characters representable in the target encoding with encoded length == width (wide/narrow); ASCII control "
     "characters are in the domain as str only under utf-8 (zero columns by wcwidth<0 -> 0) and as bytes everywhere (one column per "
     "byte in wide/narrow); SO/SI and C1 controls are excluded; what a terminal does with control bytes is not judged (C04)",
-    "pack(()) / render(()) (unlimited width) is not judged for texts with control characters: pack(()) splits with str.splitlines() and "
-    "measures decoded bytes with the str table, outside the C03 statement",
+    "pack(()) / render(()) (unlimited width): pack(()) == (widest line by the layout's own measure, number of newline-separated lines) "
+    "and render(()) has exactly that size",
     "a word is a maximal run of non-space narrow characters; a boundary next to a double-width character is a legal 'space' break",
     "'space' break rule is applied when every word of the whole text fits",
     "each omitted space/newline needs its own line break (two spaces at a wrap = two wrap points, one an empty line)",
@@ -407,19 +420,17 @@ def check_fixed(ctx, st, case, collect):
 
     enc, text = case["enc"], case["text"]
     mode = mode_of(enc)
-    ctl = CONTROLS if isinstance(text, str) else {ord(c) for c in CONTROLS}
-    if any(c in ctl for c in text):
-        # pack(()) splits lines with str.splitlines() (also at \r \x0b \x0c \x1c-\x1e) and measures decoded bytes with
-        # the str width table: with control characters it disagrees with the layout.  The unlimited-width view is not
-        # part of the C03 statement (C01's size contract), so such texts are not judged here; counted instead.
-        ctx.counters["pack_fixed_skipped_control_chars"] += 1
-        return
     set_enc(st, enc)
     D = M.Dec(text, mode)
     paras = D.paragraphs()
     want = (max(D.cwidth(a, b) for a, b in paras), len(paras))
+    if len(paras) > 1:
+        ctx.counters["pack_fixed_multi_line"] += 1
+        most = max(paras, key=lambda ab: (D.ends[ab[1] - 1] - D.starts[ab[0]]) if ab[1] > ab[0] else 0)
+        if D.cwidth(*most) != want[0]:
+            ctx.counters["pack_fixed_widest_line_is_not_longest"] += 1
     try:
-        tw = urwid.Text(text, align=case["align"], wrap=case["wrap"] if case["wrap"] in ("any", "space") else "any")
+        tw = urwid.Text(text, align=case["align"], wrap=case["wrap"])
         got = tw.pack(())
         ctx.counters["pack_fixed_checks"] += 1
         if tuple(got) != want:
@@ -566,7 +577,24 @@ def shrink(ctx, case, core):
                     cur = c
             except Exception:  # noqa: BLE001
                 pass
-        # drop characters
+        # drop chunks (long texts), then single characters
+        t = cur["text"]
+        chars = list(t) if isinstance(t, str) else [t[D0:D1] for D0, D1 in _bounds(t, cur["enc"])]
+        size = len(chars) // 2
+        tries = 0
+        while size >= 4 and tries < 120:
+            i = 0
+            while i < len(chars) and tries < 120:
+                tries += 1
+                cand = chars[:i] + chars[i + size :]
+                t2 = "".join(cand) if isinstance(t, str) else b"".join(cand)
+                c = dict(cur, text=t2)
+                if still(c):
+                    cur = c
+                    chars = cand
+                else:
+                    i += size
+            size //= 2
         changed = True
         rounds = 0
         while changed and rounds < 200:
@@ -818,6 +846,21 @@ def _run(ctx):
                 order = ENC_CYCLE if k % 2 else ENC_CYCLE[::-1]
                 interleave(ctx, st, s0, w, wrap, ALIGNS[k % 3], order, as_bytes=bool(k // 2 % 2))
 
+    # ---- directed: unlimited-width view of multi-line texts whose widest line is not the one with most characters
+    k = 0
+    for a_line in ("hello", "ab", "a", "abc", "", "á́́", "\t\tab"):
+        for b_line in ("你好吗", "漢", "漢字", "漢a", "😀😀"):
+            for t in (a_line + "\n" + b_line, b_line + "\n" + a_line, a_line + "\n" + b_line + "\n" + a_line + "x"):
+                for enc in ("utf-8", "euc-jp", "gbk"):
+                    k += 1
+                    if not ctx.mine(k):
+                        continue
+                    for as_bytes in (False, True):
+                        tt = fit_text(t, enc, as_bytes)
+                        text = to_bytes(tt, enc, mode_of(enc)) if as_bytes else tt
+                        for wrap in WRAPS:
+                            run_one(ctx, st, {"kind": "fixed", "enc": enc, "text": text, "width": 1, "wrap": wrap, "align": ALIGNS[(k + len(wrap)) % 3]})
+
     # ---- exhaustive, small: all-ASCII texts with control characters (zero columns in str / utf-8 bytes, one column per
     # byte in 8-bit byte texts): utf-8 str with every alignment, utf-8 bytes and iso8859-1 bytes with rotating alignment
     ctl_alpha = ["a", " ", "\t", "\n"] + ctx.pick([], ["\x7f"])
@@ -841,6 +884,43 @@ def _run(ctx):
                         run_one(ctx, st, {"enc": enc, "text": s0.encode(enc), "width": w, "wrap": wrap, "align": al}, light=True)
                         ctx.count("control_char_cases")
             ctx.count("exh_strings:PCtl")
+
+    # ---- directed: LONG lines at LARGE widths (bounded look-back / quadratic helpers only show beyond a few hundred bytes)
+    lrng = ctx.subrng("long")
+    long_widths = (255, 256, 257, 300, 511, 512, 513, 1000)
+
+    def long_texts(n):
+        wide = lrng.choice("漢字あア")
+        yield "all-wide", wide * n
+        yield "ascii1+wide", "a" + wide * n
+        yield "ascii2+wide", "ab" + wide * n
+        yield "ascii3+wide+ascii+wide", "abc" + wide * (n // 2) + "x" + wide * (n // 2)
+        yield "wide-words", " ".join(wide * lrng.randint(1, 40) for _ in range(max(1, n // 20)))
+        yield "mixed", "".join(lrng.choice([wide, wide, wide, "a", "b", " ", "é"]) for _ in range(n))
+        yield "combining-runs", "".join("a" + "́" * lrng.randint(0, 30) + lrng.choice(["", " ", wide]) for _ in range(n // 8))
+        yield "ascii-words", " ".join("w" * lrng.randint(1, 30) for _ in range(n // 12))
+        yield "ascii-unbroken", "x" * n
+        yield "lines", "\n".join(("a" * lrng.randint(0, 3) + wide * lrng.randint(100, 400)) for _ in range(3))
+
+    k = 0
+    for n in (150, 300, 700, 1500):
+        for label, s0 in long_texts(n):
+            for enc in ("utf-8", "euc-jp", "gbk", "big5", "iso8859-1", "cp1252"):
+                for as_bytes in (True, False):
+                    t = fit_text(s0, enc, as_bytes)
+                    if len(t) < 100:
+                        continue
+                    text = to_bytes(t, enc, mode_of(enc)) if as_bytes else t
+                    for w in long_widths:
+                        k += 1
+                        if not ctx.mine(k) or not ctx.more(0.5):
+                            continue
+                        for wi, wrap in enumerate(WRAPS):
+                            run_one(ctx, st, {"enc": enc, "text": text, "width": w, "wrap": wrap, "align": ALIGNS[(k + wi) % 3]}, light=True)
+                            ctx.count("long_line_cases")
+                            ctx.count(f"long_line_cases:{mode_of(enc)}/{'bytes' if as_bytes else 'str'}")
+                            if w > 256:
+                                ctx.count("long_line_width_gt_256_cases")
 
     # ---- exhaustive core, in phases ordered by value so that a budget cut (loaded machine) loses the least:
     #   P0  every string of length <= 3 (quick) / 4 (thorough): full product widths x wraps x aligns x {str, bytes} x 3 encodings
@@ -879,6 +959,11 @@ def _run(ctx):
             run_one(ctx, st, {"enc": enc, "text": text, "width": pv["width"], "wrap": pv["wrap"], "align": pv["align"]}, light=True)
             ctx.count("text_only_change_cases")
 
+    def fixed_pair(j, enc, s):
+        """unlimited-width view: pack(()) == (widest line, number of lines) and render(()) has that size"""
+        run_one(ctx, st, {"kind": "fixed", "enc": enc, "text": s, "width": 1, "wrap": WRAPS[j % 4], "align": ALIGNS[j % 3]})
+        run_one(ctx, st, {"kind": "fixed", "enc": enc, "text": s.encode(enc), "width": 1, "wrap": WRAPS[(j + 1) % 4], "align": ALIGNS[(j + 1) % 3]})
+
     def p0(j, ln, enc, mode, s):
         for text in (s, s.encode(enc)):
             text_only(enc, text)
@@ -891,14 +976,14 @@ def _run(ctx):
             for w in (6, 3, 5, 2, 1, 4):
                 run_one(ctx, st, {"enc": enc, "text": text, "width": w, "wrap": WRAPS[j % 4], "align": ALIGNS[j % 3]}, light=True)
                 ctx.count("same_config_other_width_cases")
-        if j % 3 == 0:
-            run_one(ctx, st, {"kind": "fixed", "enc": enc, "text": s, "width": 1, "wrap": "space", "align": "left"})
-            run_one(ctx, st, {"kind": "fixed", "enc": enc, "text": s.encode(enc), "width": 1, "wrap": "any", "align": "right"})
+        fixed_pair(j, enc, s)
 
     def rotating(primary):
         def body(j, ln, enc, mode, s):
             as_str = (mode == "utf8") == primary
             text = s if as_str else s.encode(enc)
+            if primary and "\n" in s:
+                fixed_pair(j, enc, s)
             for w in widths:
                 for wrap in WRAPS:
                     al = ALIGNS[(j + w + len(wrap)) % 3]
@@ -969,7 +1054,7 @@ def _run(ctx):
             others = rng.sample(ENC_CYCLE, 3)
             interleave(ctx, st, s, w, case["wrap"], case["align"], [enc, *others, enc], as_bytes=isinstance(text, bytes))
         r = rng.random()
-        if r < 0.1:
+        if r < 0.25:
             run_one(ctx, st, dict(case, kind="fixed", prev=None))
         elif r < 0.3 and "\n" not in s:
             t1 = text.replace("\n", "") if isinstance(text, str) else text.replace(b"\n", b"")
